@@ -45,7 +45,7 @@ const (
 
 type rdFault struct {
 	Idx  int
-	Kind string // cut err6 err3 err7 err1 hang move err1h (= err1, and the ListOffsets the reader sends next is never answered)
+	Kind string // cut stall (= cut, connection left open and silent) err6 err3 err7 err1 hang move err1h (= err1, and the ListOffsets the reader sends next is never answered)
 	K    int    // cut only
 }
 
@@ -94,7 +94,7 @@ func (sc *rdScenario) args() string {
 		var l []string
 		for _, f := range sc.Faults {
 			k := f.Kind
-			if k == "cut" {
+			if k == "cut" || k == "stall" {
 				k += strconv.Itoa(f.K)
 			}
 			l = append(l, fmt.Sprintf("%d:%s", f.Idx, k))
@@ -151,7 +151,7 @@ type rdBroker struct {
 func newRdBroker(sc *rdScenario) *rdBroker {
 	rb := &rdBroker{sc: sc, items: sc.Items, first: itemFirst(sc.Items[0]), leader: 1, seq: map[int]int{},
 		hwm3: make(chan struct{}), last: time.Now()}
-	rb.b = &Broker{FetchMax: int16(sc.Ver), Topic: sc.topic()}
+	rb.b = &Broker{FetchMax: int16(sc.Ver), Topic: sc.topic(), Cluster: true}
 	rb.b.OnConn = func(int) bool {
 		rb.mu.Lock()
 		rb.hang = false
@@ -258,6 +258,11 @@ func (rb *rdBroker) answer(q FetchReq) (FetchResp, time.Duration) {
 		case "cut":
 			k := f.K
 			return FetchResp{Hwm: sc.Hwm, Set: serve(rb.items, o, budget), Cut: -1, CutFn: func(n int) int { return k % n }}, pause
+		case "stall":
+			// like cut, but the connection stays open and silent: the reader's own deadlines have to end the round
+			k := f.K
+			rb.hang = true
+			return FetchResp{Hwm: sc.Hwm, Set: serve(rb.items, o, budget), Cut: -1, CutFn: func(n int) int { return k % n }, KeepOpen: true}, 0
 		case "hang":
 			rb.hang = true
 			return FetchResp{Hang: true}, 0
@@ -385,7 +390,7 @@ func runReader(sc *rdScenario) string {
 		Topic:       sc.topic(),
 		Partition:   0,
 		Dialer: &kafka.Dialer{DialFunc: func(ctx context.Context, network, addr string) (net.Conn, error) {
-			c, _ := rb.b.Dial()
+			c, _ := rb.b.DialAddr(addr)
 			return c, nil
 		}},
 		MinBytes:         1,
@@ -635,7 +640,10 @@ func genReaderScenario(r *rand.Rand, ver int) *rdScenario {
 func (sc *rdScenario) stallAfter() time.Duration {
 	for _, f := range sc.Faults {
 		if f.Kind == "err1h" {
-			return 13 * time.Second
+			return 18 * time.Second
+		}
+		if f.Kind == "stall" {
+			return 8 * time.Second // ReadBatchTimeout (2 s) ends the round; generous for a loaded machine
 		}
 	}
 	return rdStallAfter
@@ -675,6 +683,12 @@ func readerCorpus() (scs []*rdScenario) {
 		for _, k := range []int{0, 3, 20, 40, 70, 150, 230} {
 			mk(ver, "first", 100, []int{1 << 20}, []rdFault{{Idx: 0, Kind: "cut", K: k}}, -1, 0, nil)
 		}
+		// the same cut, but the connection stays open and silent (a host lost without FIN): two complete records have
+		// arrived; the round ends at ReadBatchTimeout, Batch.Close must not wait for the tail (seeded/C17-m10)
+		mk(ver, "first", 100, []int{1 << 20}, []rdFault{{Idx: 0, Kind: "stall", K: 150 + 10*(ver%3)}}, -1, 0, nil)
+		// the leadership moves twice: to a broker at another address, and on (seeded/C02-m9: the partition connection must
+		// go to the leader's address, not to the bootstrap broker's)
+		mk(ver, "first", 100, []int{1}, []rdFault{{Idx: 1, Kind: "move"}, {Idx: 2, Kind: "move"}}, -1, 0, nil)
 		// SetOffset: backwards, forwards, to the same place; small and large queue
 		mk(ver, "first", 1, []int{1}, nil, -1, 0, []rdSet{{K: 7, O: 102}})
 		mk(ver, "first", 100, []int{1 << 20}, nil, -1, 0, []rdSet{{K: 7, O: 102}})
